@@ -31,6 +31,7 @@ type stackCfg struct {
 	idleAt          [2]int        // the writer of side x pauses before this write (-1: never) ...
 	idle            time.Duration // ... for this long: keepalive pings (5 s / 7 s) go out on the idle connection
 	wsSlowFirstDial bool          // the relay answers the first WebSocket receive dial only after 2.5 s
+	wsClientFirst   bool          // the server creates its mailboxes 1.5 s after the client has started: the client's first receive sockets are answered with "stream not found"
 	ws              bool          // the client uses the WebSocket transport (JSON text frames, base64 payloads) instead of gRPC
 	plain           bool          // plain connKit (no Noise): ClientConn / ServerConn used directly
 	realTime        bool          // outside the bubble (stream errors make the code sleep while holding a mutex,
@@ -47,6 +48,8 @@ type stackRes struct {
 	sidOK           bool
 	sidDetail       string
 	wsLeft, wsDials int
+	wsRecvDials     int
+	wsLoops         int // goroutines of the WebSocket library (one per open socket) above the number before the case, 3 s after Close
 	readNs          []int
 	readBufs        []int
 }
@@ -112,8 +115,12 @@ func stackBody(r *rng, cfg stackCfg, marker []byte, relay *fakeRelay, resp *stac
 		var raw [2]net.Conn
 		var wg sync.WaitGroup
 		wg.Add(2)
+		wsLoopsBefore := countGoroutines("websocket.(*Conn).timeoutLoop")
 		go func() {
 			defer wg.Done()
+			if cfg.wsClientFirst {
+				time.Sleep(1500 * time.Millisecond)
+			}
 			sc, err := mailbox.NewServerConn(ctx, "relay", relay, sid, btclog.Disabled, func(mailbox.ServerStatus) {})
 			if err != nil {
 				res.hsErr[1] = err
@@ -277,8 +284,17 @@ func stackBody(r *rng, cfg stackCfg, marker []byte, relay *fakeRelay, resp *stac
 				time.Sleep(50 * time.Millisecond)
 			}
 			relay.mu.Lock()
-			res.wsLeft, res.wsDials = relay.wsSendOpen, relay.wsSendDials
+			res.wsLeft, res.wsDials, res.wsRecvDials = relay.wsSendOpen, relay.wsSendDials, relay.wsRecvDials
 			relay.mu.Unlock()
+			if cfg.wsClientFirst { // (these cases run one at a time)
+				for k := 0; k < 60; k++ {
+					res.wsLoops = countGoroutines("websocket.(*Conn).timeoutLoop") - wsLoopsBefore
+					if res.wsLoops <= 0 {
+						break
+					}
+					time.Sleep(50 * time.Millisecond)
+				}
+			}
 		}
 		if !cfg.realTime && runtime.NumGoroutine() > base {
 			buf := make([]byte, 1<<20)
@@ -293,6 +309,19 @@ func stackBody(r *rng, cfg stackCfg, marker []byte, relay *fakeRelay, resp *stac
 			}
 		}
 	}
+}
+
+// countGoroutines: live goroutines whose stack mentions what
+func countGoroutines(what string) int {
+	buf := make([]byte, 4<<20)
+	buf = buf[:runtime.Stack(buf, true)]
+	n := 0
+	for _, g := range strings.Split(string(buf), "\n\n") {
+		if strings.Contains(g, what) {
+			n++
+		}
+	}
+	return n
 }
 
 func TestGenC05(t *testing.T) {
@@ -353,6 +382,12 @@ func TestGenC05(t *testing.T) {
 			q.check(res.wsLeft == 0, "c12:websocket-left-open-after-close", func() string {
 				return desc() + fmt.Sprintf("; the client dialled %d WebSocket send sockets, %d are still open 2 s after Close", res.wsDials, res.wsLeft)
 			})
+			if cfg.wsClientFirst {
+				q.stat("cases_websocket_client_before_server", 1)
+				q.check(res.wsLoops <= 0, "c12:websocket-abandoned-on-reconnect", func() string {
+					return desc() + fmt.Sprintf("; the client started 1.5 s before the server's mailboxes existed, dialled %d receive and %d send sockets; 3 s after Close %d sockets of the client are still open (each with its websocket.(*Conn).timeoutLoop goroutine)", res.wsRecvDials, res.wsDials, res.wsLoops)
+				})
+			}
 		}
 		for x := 0; x < 2; x++ {
 			y := 1 - x
@@ -464,5 +499,16 @@ func TestGenC05(t *testing.T) {
 	wg.Wait()
 	for k, oc := range outs {
 		judge(100000+k, oc.cfg, oc.class, oc.marker, oc.res, oc.relay, oc.leaked, oc.pan)
+	}
+	// one at a time: a WebSocket client that starts before the server has created the mailboxes (its receive socket
+	// is answered with "stream not found" and re-dialled every 2 s); every socket it dialled is closed by Close
+	for k := 0; k < scale(1, 3); k++ {
+		rr := r.sub(200000 + k)
+		cfg, _ := mkCfg(200000+k, rr, true)
+		cfg.ws, cfg.plain, cfg.wsClientFirst = true, false, true
+		cfg.faultN, cfg.pDrop, cfg.pSendErr, cfg.pRecvErr = 0, 0, 0, 0
+		marker := rr.bytes(16)
+		res, relay, leaked, pan := runStack(t, rr, cfg, marker)
+		judge(200000+k, cfg, "clean", marker, res, relay, leaked, pan)
 	}
 }
